@@ -184,6 +184,8 @@ def c11(run):
     run.trace("prim-cut", Q(run, 1, 8), seed_off=100)
     run.trace("prim-sweep", Q(run, 1, 2), seed_off=200, chunk=600)
     run.trace("cut", Q(run, 1, 8), seed_off=300, chunk=4000, poison=2)
+    # texts and lists beyond 64 KiB (behind 32/64-bit prefixes) and just below it (16-bit), cut one byte / a block / 64 KiB short
+    run.trace("prim-cut-long", Q(run, 1, 3), seed_off=400, chunk=24)
     return run.finish(RULE_TRACE + RULE_POISON + "Every cut position 0..len-1 of each encoding (all cuts within the first/last 150 bytes plus 100 random ones for encodings over 400 bytes).")
 
 
@@ -244,6 +246,10 @@ def c03(run):
     run.trace("roundtrip-canon", Q(run, 1, 10), seed_off=350, poison=1, small=True)   # another order of the refused calls (what a pool hands out depends on it)
     run.trace("roundtrip-canon", Q(run, 1, 10), seed_off=370, poison=1, small=True)
     run.trace("registry-frames", Q(run, 10, 200), types=["sse.SseBinary", "szse.SzseBinary", "sample.RootPacket"], seed_off=400)
+    # every length / count 0..1100 of every prefixed primitive (incl. the length of a text-list element), both orders
+    run.trace("prim-sweep", Q(run, 1, 2), seed_off=500, chunk=600)
+    # the same pairs by 16 goroutines at once, each on its own buffers (a fallback path taken only under contention): results only
+    run.parallel("prim-pairs", Q(run, 1, 4), goroutines=16, rounds=Q(run, 3, 6), seed_off=600, race_filter="RESULTS-ONLY", prop_clauses="C03", abort_violates=False, small=True)
     return run.finish(RULE_PRIMMODEL + RULE_PRIM + RULE_TRACE + RULE_POISON)
 
 
